@@ -376,18 +376,13 @@ Proof.
 Qed.
 
 (* one tick: the invariant is kept, and the turnover (if any) happens in a state satisfying it *)
-Lemma tick_J fuel w : Jw w -> Jw (fst (tick fuel w)).
+Lemma tick_end_J w bell uc : Jw w -> Jw (fst (tick_end w bell uc)).
 Proof.
-  intros HJ. unfold tick.
-  destruct (nth_error (b_row (w_bot w)) (b_place (w_bot w))) as [bell|]; [|exact HJ].
-  set (uc := user_assigned w bell).
-  set (w1 := log w _).
-  set (w2 := rhythm_wait fuel w1 bell _ _ uc _).
-  assert (J2 : Jw w2) by (apply rhythm_wait_J; exact HJ).
-  set (w3 := if uc then w2 else _).
+  intros J2. unfold tick_end.
+  set (w3 := if uc then w else _).
   assert (J3 : Jw w3).
   { unfold w3. destruct uc; [exact J2|].
-    destruct (tw_get_stroke (w_tower w2) bell) as [s|]; [|exact J2].
+    destruct (tw_get_stroke (w_tower w) bell) as [s|]; [|exact J2].
     destruct (Bool.eqb s _); [|exact J2]. unfold Jw. rewrite bot_emit_bell. exact J2. }
   set (w4 := if b_place (w_bot w3) =? 0 then _ else w3).
   assert (J4 : Jw w4).
@@ -396,6 +391,13 @@ Proof.
   assert (J5 : Jw w5) by exact J4.
   destruct (N_of w5 <=? b_place (w_bot w5)); [|exact J5].
   apply start_next_row_J. exact J5.
+Qed.
+
+Lemma tick_J fuel w : Jw w -> Jw (fst (tick fuel w)).
+Proof.
+  intros HJ. unfold tick.
+  destruct (nth_error (b_row (w_bot w)) (b_place (w_bot w))) as [bell|]; [|exact HJ].
+  apply tick_end_J. apply rhythm_wait_J. exact HJ.
 Qed.
 
 Lemma main_step_J fuel w p : Jw w -> Jw (fst (fst (main_step fuel w p))).
@@ -679,4 +681,137 @@ Proof.
       apply mem_nat_In in H. congruence. }
     assert (k <= n) by (destruct (le_lt_dec k n); auto; exfalso; apply H; apply HI; lia).
     lia.
+Qed.
+
+(* ------------------------------------------------------------------ C08: which strikes a tick emits *)
+Fixpoint bells_of (l : list (Q * out)) : list (nat * bool) :=
+  match l with
+  | [] => []
+  | (_, OBell b h) :: t => (b, h) :: bells_of t
+  | _ :: t => bells_of t
+  end.
+Definition obells (w : world) : list (nat * bool) := bells_of (w_out w).
+
+Lemma obells_log w o : obells (log w o) = match o with OBell b h => (b, h) :: obells w | _ => obells w end.
+Proof. unfold obells, log. cbn. destruct o; reflexivity. Qed.
+Lemma out_enqueue w t i : w_out (enqueue w t i) = w_out w.  Proof. reflexivity. Qed.
+Lemma out_server_ring w bell cl : w_out (server_ring w bell cl) = w_out w.
+Proof.
+  unfold server_ring. destruct (bell =? 0); [reflexivity|].
+  destruct (nth_error (w_server w) (bell - 1)); [|reflexivity].
+  destruct (match cl with Some c => Bool.eqb b c | None => true end); reflexivity.
+Qed.
+Lemma obells_emit_bell w bell h : obells (emit_bell w bell h) = (bell, h) :: obells w.
+Proof. unfold emit_bell, obells. rewrite out_server_ring. reflexivity. Qed.
+Lemma obells_make_call w c : obells (make_call w c) = obells w.
+Proof. unfold make_call. destruct (b_call_comps (w_bot w)); reflexivity. Qed.
+Lemma obells_make_calls cs : forall w, obells (make_calls w cs) = obells w.
+Proof.
+  unfold make_calls. induction cs as [|c cs IH]; intros w; cbn [fold_left]; [reflexivity|].
+  rewrite IH. apply obells_make_call.
+Qed.
+Lemma obells_expect_loop r : forall w i, obells (expect_loop w r i) = obells w.
+Proof.
+  induction r as [|bell r IH]; intros w i; cbn [expect_loop]; [reflexivity|].
+  rewrite IH. destruct (user_assigned w bell); reflexivity.
+Qed.
+Lemma obells_generate_next_row w : obells (fst (generate_next_row w)) = obells w.
+Proof.
+  unfold generate_next_row.
+  destruct (b_opening_flag (w_bot w)); [reflexivity|].
+  destruct (b_rounds_flag (w_bot w)); [reflexivity|].
+  destruct (gen_next _ _) as [[g' [r cs]]|e]; reflexivity.
+Qed.
+Lemma obells_start_next_row w f : obells (fst (start_next_row w f)) = obells w.
+Proof.
+  unfold start_next_row.
+  destruct (snr_ctl _ _ _ _ _ _) as [[k act]|e]; [|reflexivity].
+  set (w2 := upd_bot _ (fun b => set_ctl b k)).
+  assert (E2 : obells w2 = obells w).
+  { unfold w2. destruct act as [|[|]]; try reflexivity.
+    match goal with |- obells (upd_bot (make_call ?x uStand) _) = _ =>
+      change (obells (make_call x uStand) = obells w); rewrite obells_make_call end. reflexivity. }
+  set (w3 := match act with Start _ => upd_bot w2 _ | NoStart => w2 end).
+  assert (E3 : obells w3 = obells w) by (unfold w3; destruct act; exact E2).
+  destruct (negb (b_ringing (w_bot w3))); [exact E3|].
+  pose proof (obells_generate_next_row w3) as G.
+  destruct (generate_next_row w3) as [w4 [e|]]; cbn [hthen hok fst] in *; [congruence|].
+  rewrite obells_expect_loop. congruence.
+Qed.
+
+(* The complete rule: the second half of a tick strikes exactly when the bell sampled at the start of
+   the tick was Wheatley's (uc = false) and the tower's stroke of that bell equals the stroke of the
+   row in progress; the strike is for that very bell on that very stroke, and nothing else is struck. *)
+Theorem tick_end_strikes w bell uc :
+  obells (fst (tick_end w bell uc)) =
+  match (if uc then None else tw_get_stroke (w_tower w) bell) with
+  | Some s => if Bool.eqb s (stroke_of_row (b_row_number (w_bot w))) then (bell, s) :: obells w else obells w
+  | None => obells w
+  end.
+Proof.
+  unfold tick_end.
+  set (w3 := if uc then w else _).
+  assert (E3 : obells w3 =
+    match (if uc then None else tw_get_stroke (w_tower w) bell) with
+    | Some s => if Bool.eqb s (stroke_of_row (b_row_number (w_bot w))) then (bell, s) :: obells w else obells w
+    | None => obells w
+    end).
+  { unfold w3. destruct uc; [reflexivity|].
+    destruct (tw_get_stroke (w_tower w) bell) as [s|]; [|reflexivity].
+    destruct (Bool.eqb s _); [apply obells_emit_bell | reflexivity]. }
+  rewrite <- E3.
+  set (w4 := if b_place (w_bot w3) =? 0 then _ else w3).
+  assert (E4 : obells w4 = obells w3).
+  { unfold w4. destruct (b_place (w_bot w3) =? 0); [apply obells_make_calls | reflexivity]. }
+  set (w5 := upd_bot w4 _).
+  destruct (N_of w5 <=? b_place (w_bot w5)); [rewrite obells_start_next_row|]; exact E4.
+Qed.
+
+(* the bell and the ownership a tick acts on are those sampled when the tick begins *)
+Theorem tick_samples_at_begin fuel w :
+  tick fuel w =
+  match nth_error (b_row (w_bot w)) (b_place (w_bot w)) with
+  | None => (w, Some EIndex)
+  | Some bell =>
+      let uc := negb (tw_assigned_to (w_tower w) bell (b_name (w_bot w))) in
+      tick_end (rhythm_wait fuel (log w (RWaitFor (w_now w) bell (b_row_number (w_bot w)) (b_place (w_bot w)) uc
+                                             (stroke_of_row (b_row_number (w_bot w)))))
+                            bell (b_row_number (w_bot w)) (b_place (w_bot w)) uc
+                            (stroke_of_row (b_row_number (w_bot w)))) bell uc
+  end.
+Proof. reflexivity. Qed.
+
+Lemma tower_make_calls cs : forall w, w_tower (make_calls w cs) = w_tower w.
+Proof.
+  unfold make_calls. induction cs as [|c cs IH]; intros w; cbn [fold_left]; [reflexivity|].
+  rewrite IH. unfold make_call. destruct (b_call_comps (w_bot w)); reflexivity.
+Qed.
+Lemma tower_emit_bell w bell h : w_tower (emit_bell w bell h) = w_tower w.
+Proof.
+  unfold emit_bell, server_ring. destruct (bell =? 0); [reflexivity|].
+  destruct (nth_error _ _); [|reflexivity]. destruct (Bool.eqb _ _); reflexivity.
+Qed.
+
+(* places advance one at a time within a row, so with C01 no bell is struck twice for one row *)
+Theorem tick_end_advances w bell uc :
+  let w' := fst (tick_end w bell uc) in
+  (N_of w <=? S (b_place (w_bot w))) = false ->
+  b_place (w_bot w') = S (b_place (w_bot w)) /\ b_row_number (w_bot w') = b_row_number (w_bot w)
+  /\ b_row (w_bot w') = b_row (w_bot w).
+Proof.
+  cbv zeta. unfold tick_end.
+  set (w3 := if uc then w else _).
+  assert (B3 : w_bot w3 = w_bot w /\ w_tower w3 = w_tower w).
+  { unfold w3. destruct uc; [auto|]. destruct (tw_get_stroke (w_tower w) bell) as [s|]; [|auto].
+    destruct (Bool.eqb s _); [|auto]. split; [apply bot_emit_bell | apply tower_emit_bell]. }
+  destruct B3 as [B3 T3].
+  set (w4 := if b_place (w_bot w3) =? 0 then _ else w3).
+  assert (B4 : w_bot w4 = w_bot w /\ w_tower w4 = w_tower w).
+  { unfold w4. destruct (b_place (w_bot w3) =? 0); [|auto].
+    rewrite bot_make_calls, tower_make_calls. auto. }
+  destruct B4 as [B4 T4].
+  set (w5 := upd_bot w4 _). intros Hn.
+  assert (E : (N_of w5 <=? b_place (w_bot w5)) = false).
+  { unfold w5, N_of. cbn. rewrite T4, B4. exact Hn. }
+  rewrite E. cbn [fst hok]. unfold w5. cbn. rewrite B4. auto.
 Qed.
